@@ -24,7 +24,7 @@ type GenCfg struct {
 
 var cmdPool = []string{"/", "/foo", "/foo/bar", "/crud/create", "/a/b/c/d", "/é/x", "/msg/send"}
 
-var AbsTimes = []int64{-62135596800, 253402300799, (1 << 53) - 1, 1 << 53, (1 << 53) + 1, -((1 << 53) - 1), -(1 << 53), 1 << 60, 1900000000, 4102444800, 0, 1}
+var AbsTimes = []int64{-62135596800, 253402300799, 10413792000, 32503680000, -11676096000, (1 << 53) - 1, 1 << 53, (1 << 53) + 1, -((1 << 53) - 1), -(1 << 53), 1 << 60, 1900000000, 4102444800, 0, 1}
 var offs = []int64{3600, 86400, 365 * 86400, 100 * 365 * 86400}
 
 func genKey(t *rapid.T, algs []keys.Alg, label string) KeyRef {
